@@ -1163,3 +1163,249 @@ def run_C06_test(ctx, res, rng):
 
 
 register("C06", ["Guard.Properties.C06"], run_C06, needs_cli=True)
+
+
+# =============================================================================== C09
+
+def norm_msg(m):
+    return None if m in (None, "") else m
+
+
+def canon_impl_cr(c):
+    (kind, b), = c.items()
+    if kind == "Rule":
+        return {"Rule": {"name": b["name"], "msg": norm_msg(b["messages"].get("custom_message")),
+                         "checks": [canon_impl_cr(x) for x in b["checks"]]}}
+    if kind == "Block":
+        u = b.get("unresolved")
+        return {"Block": {"unres": u["traversed_to"]["path"] if u else None}}
+    if kind == "Disjunctions":
+        return {"Disjunctions": [canon_impl_cr(x) for x in b["checks"]]}
+    (uk, ub), = b.items()          # Clause: Unary | Binary
+    (ck, cb), = ub["check"].items() if isinstance(ub["check"], dict) else ((ub["check"], None),)
+    msg = norm_msg(ub["messages"].get("custom_message"))
+    if uk == "Unary":
+        if ck == "Resolved":
+            return {"Clause": {"k": "Unary", "c": "Resolved", "from": cb["value"]["path"], "to": [], "msg": msg}}
+        if ck == "UnResolved":
+            return {"Clause": {"k": "Unary", "c": "UnResolved", "from": cb["value"]["traversed_to"]["path"], "to": [], "msg": msg}}
+        return {"Clause": {"k": "Unary", "c": "Context", "from": None, "to": [], "msg": msg, "ctx": cb}}
+    if ck == "Resolved":
+        return {"Clause": {"k": "Binary", "c": "Resolved", "from": cb["from"]["path"], "to": [cb["to"]["path"]], "msg": msg}}
+    if ck == "UnResolved":
+        return {"Clause": {"k": "Binary", "c": "UnResolved", "from": cb["value"]["traversed_to"]["path"], "to": [], "msg": msg}}
+    return {"Clause": {"k": "Binary", "c": "InResolved", "from": cb["from"]["path"], "to": [t["path"] for t in cb["to"]], "msg": msg}}
+
+
+def canon_model_cr(c):
+    (kind, b), = c.items()
+    if kind == "Rule":
+        return {"Rule": {"name": b["name"], "msg": norm_msg(b["msg"]), "checks": [canon_model_cr(x) for x in b["checks"]]}}
+    if kind == "Block":
+        return {"Block": {"unres": b["unres"]}}
+    if kind == "Disjunctions":
+        return {"Disjunctions": [canon_model_cr(x) for x in b]}
+    d = dict(b)
+    d["msg"] = norm_msg(d.get("msg"))
+    if d["c"] == "Context":
+        d["from"] = None
+    return {"Clause": d}
+
+
+def strip_ctx(c):
+    if "Clause" in c:
+        c = {"Clause": {k: v for k, v in c["Clause"].items() if k != "ctx"}}
+    elif "Rule" in c:
+        c = {"Rule": dict(c["Rule"], checks=[strip_ctx(x) for x in c["Rule"]["checks"]])}
+    elif "Disjunctions" in c:
+        c = {"Disjunctions": [strip_ctx(x) for x in c["Disjunctions"]]}
+    return c
+
+
+def base_rule_name(n):
+    """the implicit rule is called `<rules file name>/default`: drop the file part"""
+    return n.split(".guard/")[-1] if ".guard/" in n else n
+
+
+def norm_names(c):
+    if "Rule" in c:
+        c = {"Rule": dict(c["Rule"], name=base_rule_name(c["Rule"]["name"]), checks=[norm_names(x) for x in c["Rule"]["checks"]])}
+    elif "Disjunctions" in c:
+        c = {"Disjunctions": [norm_names(x) for x in c["Disjunctions"]]}
+    return c
+
+
+def canon_impl_report(r):
+    return {"status": r["status"], "compliant": sorted(set(map(base_rule_name, r["compliant"]))),
+            "not_applicable": sorted(set(map(base_rule_name, r["not_applicable"]))),
+            "not_compliant": [norm_names(strip_ctx(canon_impl_cr(c))) for c in r["not_compliant"]]}
+
+
+def canon_model_report(m):
+    return {"status": m["status"], "compliant": sorted(set(map(base_rule_name, m["compliant"]))),
+            "not_applicable": sorted(set(map(base_rule_name, m["not_applicable"]))),
+            "not_compliant": [norm_names(canon_model_cr(c)) for c in m["not_compliant"]]}
+
+
+def cr_leaf_msgs(c, acc):
+    if "Clause" in c:
+        acc.append(c["Clause"]["msg"])
+    elif "Rule" in c:
+        for x in c["Rule"]["checks"]:
+            cr_leaf_msgs(x, acc)
+    elif "Disjunctions" in c:
+        for x in c["Disjunctions"]:
+            cr_leaf_msgs(x, acc)
+
+
+def failed_msgs(t, acc):
+    if t["k"] == "ClauseValueCheck" and t["v"] != "Success":
+        acc.append(norm_msg(t.get("msg")))
+    for c in t["c"]:
+        failed_msgs(c, acc)
+
+
+def distinct_names_program(g, doc, nfiles):
+    """1..3 rules files with globally distinct rule names"""
+    files = []
+    for k in range(nfiles):
+        txt = g.rules_file(doc, depth=2, cfn=False)
+        import re as _re
+        txt = _re.sub(r"\br(\d)\b", lambda m: "f%dr%s" % (k, m.group(1)), txt)
+        files.append(txt)
+    return files
+
+
+def run_C09(ctx):
+    res = Result("random rule files with distinct rule names (1..3 rules files per run) x documents: the structured report of "
+                 "the implementation (library `run_checks` and `validate --structured -o json` of the real binary) is compared "
+                 "with the report the Lean model derives from the implementation's own record tree(s), and judged against the "
+                 "partition / status / attribution statements; non-trivial = evaluated run, distinct by (rules, data)")
+    n = 6000 if ctx.thorough() else 500
+    rng = random.Random(ctx.seed)
+    runs = []
+    for i in range(n):
+        g = gen.G(ctx.seed * 9000011 + i)
+        d = g.doc()
+        runs.append((distinct_names_program(g, d, rng.choice([1, 1, 2, 3])), json.dumps(d)))
+    # per rules file: tree (verbose) and report (library)
+    reqs, owner = [], []
+    for ri, (files, data) in enumerate(runs):
+        for fi, txt in enumerate(files):
+            reqs.append({"id": len(reqs), "op": "case", "rules": txt, "data": data, "report": True})
+            owner.append((ri, fi))
+    resp = ctx.hp.map(reqs)
+    per = {}
+    for (ri, fi), r in zip(owner, resp):
+        per[(ri, fi)] = r
+    # model reports from the implementation's trees
+    mreqs, midx = [], []
+    for ri, (files, data) in enumerate(runs):
+        obs = [vlib.obs_of_impl(per[(ri, fi)], detail=True) for fi in range(len(files))]
+        if all(o["kind"] == "ok" for o in obs):
+            mreqs.append({"id": ri, "op": "report", "trees": [o["tree"] for o in obs]})
+            midx.append(ri)
+            for fi, o in enumerate(obs):
+                mreqs.append({"id": "%d/%d" % (ri, fi), "op": "report", "trees": [o["tree"]]})
+                midx.append((ri, fi))
+    mresp = dict(zip(midx, ctx.mp.map(mreqs)))
+    # real binary, structured json, all rules files of the run at once
+    jobs, jidx = [], []
+    for ri, (files, data) in enumerate(runs):
+        if ri in mresp:
+            fl = {"r%d.guard" % k: t for k, t in enumerate(files)}
+            fl["d.json"] = data
+            argv = ["validate", "--structured", "-o", "json", "-S", "none", "-d", "{DIR}/d.json"]
+            for k in range(len(files)):
+                argv += ["-r", "{DIR}/r%d.guard" % k]
+            jobs.append({"argv": argv, "files": fl})
+            jidx.append(ri)
+    outs = dict(zip(jidx, vlib.run_cli_many(jobs)))
+    for ri, (files, data) in enumerate(runs):
+        res.evaluations += 1
+        if ri not in mresp:
+            res.stats["c09-run-not-evaluated"] += 1
+            continue
+        res.nontrivial.add(ri)
+        res.stats["c09-files:%d" % len(files)] += 1
+        # (1) library report per rules file == model report from that tree
+        for fi in range(len(files)):
+            rep = per[(ri, fi)].get("report", {})
+            if "ok" not in rep:
+                continue
+            impl_rep = canon_impl_report(rep["ok"])
+            model_rep = canon_model_report(mresp[(ri, fi)])
+            if impl_rep != model_rep:
+                res.disagreements.append({"what": "structured report: implementation and model (from the same tree) differ",
+                                          "rules": files[fi], "data": data, "impl": impl_rep, "model": model_rep})
+            tree = vlib.obs_of_impl(per[(ri, fi)], detail=True)["tree"]
+            judge_report(res, impl_rep, [tree], files[fi], data)
+        # (2) binary, all files: union of the individual reports
+        o = outs[ri]
+        try:
+            arr = json.loads(o["stdout"])
+            combined = canon_impl_report(arr[0])
+        except Exception:
+            res.judge_failures.append({"what": "validate --structured -o json did not print a JSON report (exit %s)" % o["code"],
+                                       "class": "c09-json", "rules": files, "data": data, "stdout": o["stdout"][:300], "stderr": o["stderr"][:300]})
+            continue
+        # libyaml loader attaches line/column, paths are the same
+        model_comb = canon_model_report(mresp[ri])
+        if combined != model_comb:
+            res.disagreements.append({"what": "combined structured report (several rules files): binary and model differ",
+                                      "rules": files, "data": data, "impl": combined, "model": model_comb})
+        trees = [vlib.obs_of_impl(per[(ri, fi)], detail=True)["tree"] for fi in range(len(files))]
+        judge_report(res, combined, trees, files, data)
+        if ri < 2:
+            res.add_sample({"rules": files, "data": data, "report_status": combined["status"], "compliant": combined["compliant"],
+                            "not_applicable": combined["not_applicable"], "not_compliant": [c.get("Rule", {}).get("name") for c in combined["not_compliant"]]})
+    return res
+
+
+def judge_report(res, rep, trees, rules, data):
+    """the statements of C09 on the implementation's report against its own tree(s)"""
+    by = {}
+    for t in trees:
+        for c in t["c"]:
+            if c["k"] == "RuleCheck":
+                by.setdefault(base_rule_name(c["n"]), []).append(c)
+    bad = []
+    nc_names = [c["Rule"]["name"] for c in rep["not_compliant"] if "Rule" in c]
+    for name, recs in by.items():
+        sts = {r["s"] for r in recs}
+        if len(sts) != 1:
+            continue          # several definitions with different statuses: not the distinct-name domain
+        s = sts.pop()
+        inc = [name in rep["compliant"], name in rep["not_applicable"], name in nc_names]
+        exp = [s == "PASS", s == "SKIP", s == "FAIL"]
+        if inc != exp:
+            bad.append("rule %s has status %s but is listed compliant/not_applicable/not_compliant = %s" % (name, s, inc))
+    for name in set(rep["compliant"]) | set(rep["not_applicable"]) | set(nc_names):
+        if name not in by:
+            bad.append("rule %s is listed but was not evaluated" % name)
+    exp_status = "FAIL" if nc_names else ("PASS" if rep["compliant"] else "SKIP")
+    if rep["status"] != exp_status:
+        bad.append("file status %s but not_compliant=%s compliant=%s" % (rep["status"], nc_names, rep["compliant"]))
+    for c in rep["not_compliant"]:
+        if "Rule" not in c:
+            bad.append("top-level not_compliant entry that is not a rule")
+            continue
+        name = c["Rule"]["name"]
+        leafs, fails = [], []
+        cr_leaf_msgs(c, leafs)
+        for r in by.get(name, []):
+            if r["s"] == "FAIL":
+                failed_msgs(r, fails)
+        pool = list(fails)
+        for m in leafs:
+            if m in pool:
+                pool.remove(m)
+            elif m is not None and m.replace(";", "\n") in pool:
+                pool.remove(m.replace(";", "\n"))
+            else:
+                bad.append("a check listed under rule %s (custom message %r) is not a failed check of that rule" % (name, m))
+    for b in bad:
+        res.judge_failures.append({"what": "structured report: " + b, "class": "c09-report", "rules": rules, "data": data})
+
+
+register("C09", ["Guard.Properties.C09"], run_C09, needs_cli=True)
